@@ -7,6 +7,7 @@ import (
 	"encoding/json"
 	"errors"
 	"fmt"
+	"strings"
 	"sync"
 	"time"
 
@@ -48,6 +49,11 @@ type Net struct {
 	pub     *pubVDR
 	// syncFn, when set, receives every packet inside the sender's Send call (synchronous delivery mode)
 	syncFn func(*Packet)
+	// router, when set, is the endpoint of a mediator: what is posted to it, and the mediation protocol's own
+	// messages, are delivered at once (agents block on the mediator's answers); routerBusy counts such deliveries
+	router     string
+	routerBusy int
+	routerFwd  func(*Packet) bool // synchronous forward handling at the router (true if the packet was a forward)
 }
 
 // NewNet makes an empty network.
@@ -113,6 +119,30 @@ func (n *Net) Submit(from, to string, data []byte, keys []string) *Packet {
 		syncFn(p)
 
 		return p
+	}
+
+	if hold && n.router != "" {
+		n.mu.Unlock()
+		n.Peek(p)
+		n.mu.Lock()
+
+		if p.To == n.router || strings.Contains(p.Type, "/coordinate-mediation/") || strings.Contains(p.Type, "/coordinatemediation/") {
+			n.routerBusy++
+			n.mu.Unlock()
+
+			go func() {
+				if n.routerFwd == nil || !n.routerFwd(p) {
+					n.Deliver(p)
+				}
+
+				n.mu.Lock()
+				n.routerBusy--
+				n.cond.Broadcast()
+				n.mu.Unlock()
+			}()
+
+			return p
+		}
 	}
 
 	if hold {
@@ -258,6 +288,24 @@ func (n *Net) Take(pick func(*Packet) bool, d time.Duration) *Packet {
 
 		waitCond(n.cond, 20*time.Millisecond)
 	}
+}
+
+// WaitRouter waits until the mediator has nothing in hand.
+func (n *Net) WaitRouter(d time.Duration) bool {
+	deadline := time.Now().Add(d)
+
+	n.mu.Lock()
+	defer n.mu.Unlock()
+
+	for n.routerBusy > 0 {
+		if time.Now().After(deadline) {
+			return false
+		}
+
+		waitCond(n.cond, 20*time.Millisecond)
+	}
+
+	return true
 }
 
 // QueueLen is the number of held packets.
